@@ -155,6 +155,8 @@ int main(int argc, char** argv) {
   S4P("min4", min, T) V4N("min4", min)   S4P("max4", max, T) V4N("max4", max)
   S3P("gmin3", min, T const&) S3P("gmax3", max, T const&) S4P("gmin4", min, T const&) S4P("gmax4", max, T const&)
   F1N("clampT", clamp) F1(repeat) F1(mirrorClamp) F1(mirrorRepeat)
+  // ext/scalar_reciprocal vs ext/vector_reciprocal
+  F1(sec) F1(csc) F1(cot) F1(asec) F1(acsc) F1(acot) F1(sech) F1(csch) F1(coth) F1(asech) F1(acsch) F1(acoth)
 #endif
 #if IN_PART(6)
   // integer element types (int32 / uint32): component-wise functions against the scalar overload, operators against the
